@@ -24,6 +24,7 @@ import Flowjaxv.Driver.TrainGen
 import Flowjaxv.Driver.LossesGen
 import Flowjaxv.Driver.DistPublicGen
 import Flowjaxv.Driver.CtorsGen
+import Flowjaxv.Driver.TriangularGen
 /-!
 Model driver: `lake env lean --run Driver.lean < ops.txt`.  One op per line in, one line out
 (`ERR <msg>` when the model rejects the op).
@@ -131,6 +132,7 @@ def dispatch (line : String) : String :=
       | "addcond" => addcond args
       | "planar" => planar args
       | "triaff" => triaff args
+      | "gtriaff" => gtriaff args
       | "bnafld" => bnafld args
       | "bnafild" => bnafild args
       | "bnaflj" => bnaflj args
